@@ -311,31 +311,60 @@ func c09ApplicationOrder(r *an.Run) {
 			continue
 		}
 		var match *ssa.Call
-		for _, vc := range an.VerdictCalls(f) {
-			if an.StaticCallee(vc.Call) == r.P.Func(engine, "Change.Match") {
-				match = vc.Call
+		for _, g := range helperGroup(f, 2) {
+			for _, vc := range an.VerdictCalls(g) {
+				if an.StaticCallee(vc.Call) == r.P.Func(engine, "Change.Match") {
+					match = vc.Call
+				}
 			}
 		}
 		if !r.Check(match != nil, short(f)+"|match", f.Pos(), "%s matches each change", short(f)) {
 			continue
 		}
-		// every enclosing loop is a forward index loop covering all elements
+		// every enclosing loop is a forward index loop covering all elements; when the change loop lives in a
+		// private helper the loops around the helper's call count as well
 		depth := 0
-		var enclosing []*an.Loop
-		for _, l := range an.Loops(f) {
-			if l.Blocks[match.Block()] {
-				enclosing = append(enclosing, l)
-			}
+		type encl struct {
+			l      *an.Loop
+			action ssa.Instruction
+			in     *ssa.Function
 		}
-		sort.Slice(enclosing, func(i, j int) bool { return len(enclosing[i].Blocks) < len(enclosing[j].Blocks) })
-		for li, l := range enclosing {
-			depth++
-			// what every iteration must do: the innermost loop matches; an outer loop runs the loop inside it
-			var action ssa.Instruction = match
-			if li > 0 {
-				inner := enclosing[li-1].Header
-				action = inner.Instrs[len(inner.Instrs)-1]
+		var enclosing []encl
+		var act ssa.Instruction = match
+		for steps := 0; steps < 3 && act != nil; steps++ {
+			g := act.Parent()
+			var ls []*an.Loop
+			for _, l := range an.Loops(g) {
+				if l.Blocks[act.Block()] {
+					ls = append(ls, l)
+				}
 			}
+			sort.Slice(ls, func(i, j int) bool { return len(ls[i].Blocks) < len(ls[j].Blocks) })
+			for li, l := range ls {
+				// what every iteration must do: the innermost loop matches; an outer loop runs the loop inside it
+				a := act
+				if li > 0 {
+					inner := ls[li-1].Header
+					a = inner.Instrs[len(inner.Instrs)-1]
+				}
+				enclosing = append(enclosing, encl{l, a, g})
+			}
+			if g == f {
+				break
+			}
+			var next ssa.Instruction
+			for _, h := range helperGroup(f, 2) {
+				for _, c := range an.Calls(h) {
+					if an.StaticCallee(c) == g {
+						next = c
+					}
+				}
+			}
+			act = next
+		}
+		for _, e := range enclosing {
+			depth++
+			l, action := e.l, e.action
 			il := an.AsIndexLoop(l)
 			if !r.Check(il != nil && il.Start == 0 && il.Step == 1, short(f)+"|forward-loop|"+loopBoundText(il), loopPos(l), "programs and changes are visited by forward index loops") {
 				continue
@@ -358,7 +387,7 @@ func c09ApplicationOrder(r *an.Run) {
 			// earlier changes of the same run edited it
 			seq := ""
 			if bc, ok := il.Bound.(*ssa.Call); ok && an.IsCallTo(bc, "builtin:len") {
-				seq = an.PathIn(bc.Call.Args[0], f)
+				seq = an.PathIn(bc.Call.Args[0], e.in)
 				if _, isCall := an.Root(bc.Call.Args[0]).(*ssa.Call); isCall {
 					seq = ""
 				}
@@ -523,7 +552,11 @@ func c09APIFailure(r *an.Run) {
 	}
 	// a Replace error must end in `return nil, err`
 	n := 0
-	for _, c := range an.Calls(f) {
+	var group []ssa.CallInstruction
+	for _, g := range helperGroup(f, 2) {
+		group = append(group, an.Calls(g)...)
+	}
+	for _, c := range group {
 		call, ok := c.(*ssa.Call)
 		if !ok || an.StaticCallee(c) != r.P.Func(engine, "Change.Replace") {
 			continue
@@ -532,10 +565,16 @@ func c09APIFailure(r *an.Run) {
 		ev := errValue(call)
 		joined := false
 		// the error is accumulated (errors.Join / append) and the accumulated value guards a nil-result return
-		for _, ret := range an.Returns(f) {
-			if an.IsNilConst(ret.Results[0]) && derivesFrom(ret.Results[1], ev) {
+		host := call.Parent()
+		for _, ret := range an.Returns(host) {
+			if len(ret.Results) == 2 && an.IsNilConst(ret.Results[0]) && derivesFrom(ret.Results[1], ev) {
 				joined = true
 			}
+		}
+		if joined && host != f {
+			// the change loop lives in a helper: its failure must in turn make Apply return no bytes and the error
+			site, _ := siteIn(f, call).(*ssa.Call)
+			joined = site != nil && site.Parent() == f && failureReturnsNoBytes(site)
 		}
 		r.Check(joined, short(f)+"|replace-error-returned", c.Pos(), "when a change fails to apply, File.Apply returns the error and no bytes")
 	}
